@@ -75,3 +75,105 @@ Section Equal.
     - reflexivity.
   Qed.
 End Equal.
+
+(* ================================================================== property theorems *)
+From Coq Require Import QArith.
+From OV Require Import Model.Deps Model.CritPath Proofs.CritPathQ Proofs.CritCert Proofs.CritImpl.
+
+(* ---- (T) the regenerated get_critical_path IS the functional reading Model/CritImpl.cp_model: every numeric instance, every graph,
+   every kernel, every behaviour of is_directed_acyclic_graph / dag_longest_path, errors included *)
+Theorem C04gen_get_critical_path_is_model : forall (T : Type) (N : NumOps T) (I : Type) (ln : I -> Z) (lat lcp : I -> T) (set_lcp : I -> T -> I)
+    is_dag longest self_dg heap,
+  g_get_critical_path N ln lat lcp set_lcp is_dag longest self_dg heap = cp_model N ln lat lcp set_lcp is_dag longest self_dg heap.
+Proof. intros. apply g_get_critical_path_eq. Qed.
+Print Assumptions C04gen_get_critical_path_is_model.
+
+(* ---- (C1) certificate for the REGENERATED code, unconditional in networkx: WHENEVER the translated get_critical_path returns, the lines
+   it reports with their latency_cp pass cert_ok on self.dg (one edge per node pair, edges end in instruction nodes and point forward
+   in the kernel, distinct non-negative line numbers): they are a dependency chain, every cell is the weight of the edge to the next
+   line (the first may carry the load stage of its line in addition), the last cell is the latency of its instruction *)
+Theorem C04gen_reported_cells_pass_certificate : forall (I : Type) (ln : I -> Z) (lat lcp : I -> Q) (set_lcp : I -> Q -> I),
+  (forall i v, ln (set_lcp i v) = ln i) -> (forall i v, lat (set_lcp i v) = lat i) -> (forall i v, lcp (set_lcp i v) = v) ->
+  forall (self_dg : nxg Q) (heap : list I) is_dag longest refs heap',
+  NoDup (map ekey (nx_edges_data self_dg)) ->
+  (forall u v w, In (u, v, w) (nx_edges_data self_dg) -> (exists b, v = Line b /\ (0 <= b)%Z) /\ (0 <= node_int u)%Z) ->
+  NoDup (map ln heap) -> (forall i, In i heap -> (0 <= ln i)%Z) ->
+  (forall a b w, In (Line a, Line b, w) (nx_edges_data self_dg) -> (pos (map ln heap) a < pos (map ln heap) b)%nat) ->
+  g_get_critical_path QNum ln lat lcp set_lcp is_dag longest self_dg heap = POk (refs, heap') ->
+  cert_ok QNum (to_edges self_dg) (lookup (kernel_of ln lat heap)) true (cells_of ln lcp refs heap') = true /\
+  map ln heap' = map ln heap /\ map lat heap' = map lat heap.
+Proof.
+  intros I ln lat lcp set_lcp L1 L2 L3 self_dg heap is_dag longest refs heap' G1 G2 ND NN G3 H.
+  rewrite g_get_critical_path_eq in H.
+  exact (cp_model_certificate ln lat lcp set_lcp L1 L2 L3 self_dg G1 G2 heap ND NN G3 is_dag longest refs heap' H).
+Qed.
+Print Assumptions C04gen_reported_cells_pass_certificate.
+
+(* ---- (C2) Props/C04.v C04_certificate_sound for the REGENERATED code: if, in addition, the reported cells add up to cp_opt -- the one
+   comparison the per-run certificate check still makes; it fails exactly when dag_longest_path did not return a longest path of the
+   sink graph -- the reported lines are a LONGEST dependency chain of the kernel *)
+Theorem C04gen_reported_path_is_longest_chain : forall (I : Type) (ln : I -> Z) (lat lcp : I -> Q) (set_lcp : I -> Q -> I),
+  (forall i v, ln (set_lcp i v) = ln i) -> (forall i v, lat (set_lcp i v) = lat i) -> (forall i v, lcp (set_lcp i v) = v) ->
+  forall (self_dg : nxg Q) (heap : list I) is_dag longest refs heap',
+  NoDup (map ekey (nx_edges_data self_dg)) ->
+  (forall u v w, In (u, v, w) (nx_edges_data self_dg) -> (exists b, v = Line b /\ (0 <= b)%Z) /\ (0 <= node_int u)%Z) ->
+  NoDup (map ln heap) -> (forall i, In i heap -> (0 <= ln i)%Z) ->
+  (forall a b w, In (Line a, Line b, w) (nx_edges_data self_dg) -> (pos (map ln heap) a < pos (map ln heap) b)%nat) ->
+  nonneg_edges (to_edges self_dg) -> forward_ok (to_edges self_dg) [] (kernel_of ln lat heap) ->
+  g_get_critical_path QNum ln lat lcp set_lcp is_dag longest self_dg heap = POk (refs, heap') ->
+  cert_value QNum (cells_of ln lcp refs heap') == cp_opt QNum (to_edges self_dg) (kernel_of ln lat heap) ->
+  let g := to_edges self_dg in let k := kernel_of ln lat heap in let cells := cells_of ln lcp refs heap' in
+  cells_spec g (lookup k) true cells /\
+  exists e l, chain g (map fst cells) e /\ In (last_of (map fst cells), l) k /\
+    clen g (map fst cells) e l == cells_sum cells /\
+    clen g (map fst cells) e l == cp_opt QNum g k /\
+    longest_chain g k (map fst cells) e l.
+Proof.
+  intros I ln lat lcp set_lcp L1 L2 L3 self_dg heap is_dag longest refs heap' G1 G2 ND NN G3 Hw FO H Hsum.
+  rewrite g_get_critical_path_eq in H.
+  exact (cp_model_longest_chain ln lat lcp set_lcp L1 L2 L3 self_dg heap is_dag longest refs heap' G1 G2 ND NN G3 Hw FO H Hsum).
+Qed.
+Print Assumptions C04gen_reported_path_is_longest_chain.
+
+(* ---------------------------------------------------------------- non-vacuity: Props/C04.v's g4 / k4 as an nx container and a heap
+   (line, latency, latency_cp); line 1 has a load stage (4 cy); dag_longest_path answers Load 1 -> 2 -> 3 -> 4 -> sink *)
+Definition ex_I := (Z * Q * Q)%type.
+Definition ex_ln (i : ex_I) : Z := fst (fst i).
+Definition ex_lat (i : ex_I) : Q := snd (fst i).
+Definition ex_lcp (i : ex_I) : Q := snd i.
+Definition ex_set (i : ex_I) (v : Q) : ex_I := (fst i, v).
+Definition ex_dg : nxg Q :=
+  [(Line 1%Z, [(Line 2%Z, 2%Q); (Line 3%Z, 2%Q)]); (Load 1%Z, [(Line 1%Z, 4%Q)]); (Line 2%Z, [(Line 3%Z, 3%Q)]); (Line 3%Z, [(Line 4%Z, 1%Q)]);
+   (Line 4%Z, [])].
+Definition ex_heap : list ex_I := [(1%Z, 5%Q, 0%Q); (2%Z, 3%Q, 0%Q); (3%Z, 1%Q, 0%Q); (4%Z, 2%Q, 7%Q)].
+Definition ex_longest (_ : nxg Q) : list node := [Load 1%Z; Line 2%Z; Line 3%Z; Line 4%Z; Line (-1)%Z].
+Definition ex_heap' : list ex_I := [(1%Z, 5%Q, 6%Q); (2%Z, 3%Q, 3%Q); (3%Z, 1%Q, 1%Q); (4%Z, 2%Q, 2%Q)].
+Example C04gen_nonvacuous :
+  g_get_critical_path QNum ex_ln ex_lat ex_lcp ex_set (fun _ => true) ex_longest ex_dg ex_heap = POk ([0; 1; 2; 3]%nat, ex_heap') /\
+  (* the graph handed to dag_longest_path: the load stage of line 1 is folded into the edges leaving line 1; every line -> sink *)
+  nx_edges_data (sink_graph QNum ex_ln ex_lat ex_dg ex_heap) =
+    [(Line 1%Z, Line 2%Z, 2%Q); (Line 1%Z, Line 3%Z, 2%Q); (Line 1%Z, Line (-1)%Z, 5%Q); (Load 1%Z, Line 2%Z, 6%Q); (Load 1%Z, Line 3%Z, 6%Q);
+     (Line 2%Z, Line 3%Z, 3%Q); (Line 2%Z, Line (-1)%Z, 3%Q); (Line 3%Z, Line 4%Z, 1%Q); (Line 3%Z, Line (-1)%Z, 1%Q); (Line 4%Z, Line (-1)%Z, 2%Q)] /\
+  to_edges ex_dg = [((1%nat, false), 2%nat, 2%Q); ((1%nat, false), 3%nat, 2%Q); ((1%nat, true), 1%nat, 4%Q); ((2%nat, false), 3%nat, 3%Q);
+                    ((3%nat, false), 4%nat, 1%Q)] /\
+  cert_ok QNum (to_edges ex_dg) (lookup (kernel_of ex_ln ex_lat ex_heap)) true (cells_of ex_ln ex_lcp [0; 1; 2; 3]%nat ex_heap') = true /\
+  cert_value QNum (cells_of ex_ln ex_lcp [0; 1; 2; 3]%nat ex_heap') == cp_opt QNum (to_edges ex_dg) (kernel_of ex_ln ex_lat ex_heap) /\
+  (* a cyclic graph: NotImplementedError; an answer of dag_longest_path that is not a path of self.dg: KeyError *)
+  g_get_critical_path QNum ex_ln ex_lat ex_lcp ex_set (fun _ => false) ex_longest ex_dg ex_heap = PErr PNotImplementedError /\
+  g_get_critical_path QNum ex_ln ex_lat ex_lcp ex_set (fun _ => true) (fun _ => [Line 2%Z; Line 4%Z; Line (-1)%Z]) ex_dg ex_heap = PErr PKeyError.
+Proof. repeat split; vm_compute; reflexivity. Qed.
+
+(* the hypotheses of C04gen_reported_cells_pass_certificate hold for this example *)
+Example C04gen_nonvacuous_hypotheses :
+  NoDup (map ekey (nx_edges_data ex_dg)) /\
+  (forall u v w, In (u, v, w) (nx_edges_data ex_dg) -> (exists b, v = Line b /\ (0 <= b)%Z) /\ (0 <= node_int u)%Z) /\
+  NoDup (map ex_ln ex_heap) /\ (forall i, In i ex_heap -> (0 <= ex_ln i)%Z) /\
+  (forall a b w, In (Line a, Line b, w) (nx_edges_data ex_dg) -> (pos (map ex_ln ex_heap) a < pos (map ex_ln ex_heap) b)%nat).
+Proof.
+  split; [|split; [|split; [|split]]].
+  - cbn. repeat constructor; cbn; intuition discriminate.
+  - intros u v w H. cbn in H. repeat (destruct H as [H|H]; [inversion H; subst; split; [eexists; split; [reflexivity | lia] | cbn; lia]|]). contradiction.
+  - cbn. repeat constructor; cbn; intuition discriminate.
+  - intros i H. cbn in H. repeat (destruct H as [H|H]; [subst; cbn; lia|]). contradiction.
+  - intros a b w H. cbn in H. repeat (destruct H as [H|H]; [inversion H; subst; cbn; lia|]). contradiction.
+Qed.
